@@ -19,6 +19,14 @@ package main
 // second crew from that file the way sio/siostd does, and runs the rest of
 // the history on the second crew as well.
 //
+// A specification source is either inline (a recorder) or only a name,
+// {"name": "N0"}: sio.ResolveSpecSource resolves a source with neither "inline"
+// nor "url" to nothing, without an error, and SetMachine leaves the machine
+// without specification (inert) while the report - and the consumer's store -
+// carries the source as given (mode "named", RNamed in Model/SioRecorder.v;
+// the model compares sources by label and mode, i.e. two name-only sources
+// with different names differ, like their JSON texts).
+//
 // Only the exported API of package sio is used.
 
 import (
@@ -47,6 +55,11 @@ func init() {
 
 var sioModes = []string{"fwd", "rev", "mute", "idle", "deaf"}
 
+// sioNamed: the "mode" of a source that is only a name (no recorder: it resolves to no specification)
+const sioNamed = "named"
+
+var sioNames = []string{"N0", "N1"}
+
 func coqSioMode(m string) string {
 	switch m {
 	case "fwd":
@@ -59,6 +72,8 @@ func coqSioMode(m string) string {
 		return "RIdle"
 	case "deaf":
 		return "RDeaf"
+	case sioNamed:
+		return "RNamed"
 	}
 	panic("unknown recorder mode " + m)
 }
@@ -341,7 +356,14 @@ func sioCfgOf(src *crew.SpecSource) *sioCfg {
 		return nil
 	}
 	if src.Inline == nil {
+		if src.URL == "" && src.Source == "" {
+			// only a name: the source as given (it resolves to nothing)
+			return &sioCfg{Label: src.Name, Mode: sioNamed}
+		}
 		return &sioCfg{Label: "!not-inline", Mode: "fwd"}
+	}
+	if src.Inline.Doc == sioNamed {
+		return &sioCfg{Label: "!inline-named", Mode: "fwd"}
 	}
 	return &sioCfg{Label: src.Inline.Name, Mode: src.Inline.Doc}
 }
@@ -401,7 +423,7 @@ func sioApply(ctx context.Context, c *sio.Crew, op *sioOp) (r *sio.Result, statu
 			var src *crew.SpecSource
 			if op.Spec != nil {
 				// a specification source as it arrives in a crew operation: decoded from JSON
-				js, _ := json.Marshal(map[string]interface{}{"inline": sioRecSpec(op.Spec.Label, op.Spec.Mode)})
+				js, _ := json.Marshal(sioExpand(sioSpecJSON(op.Spec)))
 				src = &crew.SpecSource{}
 				if err := json.Unmarshal(js, src); err != nil {
 					return err
@@ -804,6 +826,10 @@ func (sg *sioGen) cfg() *sioCfg {
 	default:
 		mode = "deaf"
 	}
+	if sg.g.chance(0.065) {
+		// a source that is only a name: it resolves to no specification
+		return &sioCfg{Label: sg.g.pick(sioNames), Mode: sioNamed}
+	}
 	return &sioCfg{Label: sg.g.pick(sioLabels), Mode: mode}
 }
 
@@ -846,6 +872,9 @@ func (sg *sioGen) state() *sioState {
 }
 
 func sioSpecJSON(c *sioCfg) interface{} {
+	if c.Mode == sioNamed {
+		return map[string]interface{}{"name": c.Label}
+	}
 	return map[string]interface{}{"inline": map[string]interface{}{"name": c.Label, "doc": c.Mode}}
 }
 
@@ -1379,6 +1408,24 @@ func sioCorpus() []*sioCase {
 	}
 	cs = append(cs, &sioCase{Kind: "a burst of 1300 emissions in one ProcessMsg", Ops: []*sioOp{create("a", "L0", "fwd"), create("b", "L1", "fwd"),
 		{Kind: "msg", Msg: map[string]interface{}{"to": "a", "tag": "burst", "then": burst}}, msg(`{"to":"b","tag":"after"}`)}})
+	// a source that is only a name resolves to nothing: the machine loses its specification (no message reaches it), the
+	// report and the store carry the source as given, a crew booted from the store has the same inert machine; an inline
+	// source brings the machine back (the witness of the seeded C15-r8a: the live machine kept its old specification)
+	cs = append(cs, &sioCase{Kind: "a source that is only a name resolves to nothing", Ops: []*sioOp{create("a", "L0", "fwd"),
+		msg(`{"to":"a","tag":"one","then":[{"to":"nobody","tag":"x"}]}`),
+		msg(`{"to":"captain","update":{"a":{"spec":{"name":"N0"}}}}`),
+		msg(`{"to":"a","tag":"two","then":[{"to":"nobody","tag":"y"}]}`),
+		msg(`{"tag":"three","then":[{"to":"nobody","tag":"z"}]}`),
+		msg(`{"to":"captain","update":{"a":{"spec":{"name":"N0"}}}}`),
+		msg(`{"to":"captain","update":{"a":{"spec":{"name":"N1"},"state":{"node":"flip","bs":{"k":1}}}}}`),
+		msg(`{"to":"a","tag":"four","then":[{"to":"nobody","tag":"w"}]}`),
+		msg(`{"to":"captain","update":{"a":{"spec":{"inline":{"name":"L1","doc":"fwd"}}}}}`),
+		msg(`{"to":"a","tag":"five","then":[{"to":"nobody","tag":"v"}]}`),
+		msg(`{"to":"captain","update":{"b":{"spec":{"name":"N0"}}}}`),
+		msg(`{"tag":"six","then":[{"to":"nobody","tag":"u"}]}`),
+		{Kind: "set", Mid: "a", Spec: &sioCfg{"N1", sioNamed}}, msg(`{"to":"a","tag":"seven","then":[{"to":"nobody","tag":"t"}]}`),
+		{Kind: "set", Mid: "b", Spec: &sioCfg{"L2", "rev"}, State: &sioState{Node: "flip", Bs: map[string]interface{}{}}},
+		msg(`{"tag":"eight","then":[{"to":"nobody","tag":"s"},{"to":"nobody","tag":"r"}]}`)}})
 	for _, c := range cs {
 		c.Det = sioHistoryDet(c)
 	}
@@ -1525,6 +1572,8 @@ func sioComponent(g *G, n int, opts map[string]string) *Out {
 					o.count("report:replaced")
 				case ch.Deleted:
 					o.count("report:deleted")
+				case ch.Spec != nil && ch.Spec.Mode == sioNamed:
+					o.count("report:spec-name-only")
 				case ch.Spec != nil:
 					o.count("report:spec")
 				default:
